@@ -9,6 +9,7 @@ import (
 	"fmt"
 	"io"
 	"runtime"
+	"runtime/debug"
 	"strconv"
 	"sync"
 	"sync/atomic"
@@ -303,11 +304,12 @@ func (w *c41Worker) write(h *c41Held, n int, how uint64) {
 func (w *c41Worker) verify(h *c41Held, when string) bool {
 	w.st.verifies++
 	got := h.b.Bytes()
-	if len(got) > c41MaxTotal {
+	l := len(got) // == Len()
+	if l > c41MaxTotal {
 		got = got[:c41MaxTotal]
 	}
 	at := c41Diff(got, w.id, h.serial, h.shift)
-	if h.b.Len() == h.n && at < 0 {
+	if l == h.n && at < 0 {
 		return true
 	}
 	var hdr [12]byte
@@ -317,7 +319,7 @@ func (w *c41Worker) verify(h *c41Held, when string) bool {
 	}
 	c41Fill(exp, 0, w.id, h.serial, h.shift)
 	w.e.report(evid.D(w.sig("contents-changed-while-owned"), "worker %d, %s: buffer %p (acquisition %d) should hold the %d bytes this worker wrote, but has Len()=%d, first difference at %d (-1: only the length differs; head %x, expected head %x)",
-		w.id, when, h.b, h.serial, h.n, h.b.Len(), at, c41Head(got), c41Head(exp)))
+		w.id, when, h.b, h.serial, h.n, l, at, c41Head(got), c41Head(exp)))
 	return false
 }
 
@@ -358,8 +360,13 @@ func (w *c41Worker) run(wg *sync.WaitGroup) {
 				w.e.stop.Store(true)
 				return
 			}
-			// bytes.Buffer methods cannot panic on an empty buffer that only this goroutine uses
-			w.e.report(evid.D(w.sig("buffer-op-panicked"), "worker %d: a bytes.Buffer operation on a buffer it owns panicked: %v", w.id, p))
+			// neither Get/Put nor bytes.Buffer methods can panic when every buffer handed out is empty and used by
+			// this goroutine only; the stack tells where it happened
+			st := string(debug.Stack())
+			if len(st) > 1500 {
+				st = st[:1500]
+			}
+			w.e.report(evid.D(w.sig("pool-or-buffer-op-panicked"), "worker %d: a pool operation or a bytes.Buffer operation on a buffer it owns panicked: %v\n%s", w.id, p, st))
 		}
 	}()
 	e, c := w.e, w.e.c
@@ -546,6 +553,9 @@ func c41Gen(rt *rapid.T) c41Case {
 	budget := 48000
 	if c.Big > 5000 || c.Max > 5000 {
 		budget = 8000
+		if evid.Thorough() {
+			budget = 5000
+		}
 	} else if evid.Thorough() {
 		budget = 200000
 	}
